@@ -958,7 +958,15 @@ where
 
         cache.clear_if_invalid(manager, vars);
 
-        inner(manager, edge.borrowed(), cache) >> (manager.num_levels() - vars)
+        // `count` is the number of satisfying assignments with respect to all
+        // variables in the manager
+        let count = inner(manager, edge.borrowed(), cache);
+        let levels = manager.num_levels();
+        if vars >= levels {
+            count << (vars - levels)
+        } else {
+            count >> (levels - vars)
+        }
     }
 
     fn pick_cube_edge<'id, 'a>(
